@@ -33,7 +33,7 @@ TABLE_OF_VIEW_ATTR = {"_id_dict", "_id_attr", "_bi_id_dict", "_bi_id_attr"}
 def run(ctx):
     repo = ctx.repo
     res = Result(PROP)
-    res.rules = ["V-LIVE", "V-REBIND", "V-NOCACHE", "V-ORDER", "V-FILTER", "V-FWD", "V-UNION"]
+    res.rules = ["V-LIVE", "V-REBIND", "V-NOCACHE", "V-ORDER", "V-FILTER", "V-FWD", "V-UNION", "V-ZERO"]
     res.explanation = (
         "Structural rules over the view and stat classes and a package-wide who-may-rebind scan (effect analysis): views "
         "alias the live tables, nothing is cached, ordered outputs are tagged with the provenance of their iteration "
@@ -71,6 +71,13 @@ def run(ctx):
                  "def _deg(net, n):\n    return len(net._node[n]['in']) + len(net._node[n]['out'])\n",
                  lambda nd: f"`{unparse(nd, 70)}` adds the sizes of the two sides of one directed entry; a node that is both in the tail and in the head of the same edge (or an edge that is both among the in- and out-memberships) is counted twice, so the statistic disagrees with the degree / size defined on the union",
                  "sums of the sizes of the in and out sides of one entry")
+    from .c12_matrices import falsy_default_sites
+
+    all_stat_fns = [f for mn, mi in repo.modules.items() if mn.startswith("xgi.stats") for f in list(mi.functions.values()) + [m for c in mi.classes.values() for m in c.methods.values()]]
+    pattern_lint(res, PROP, "V-ZERO", all_stat_fns, falsy_default_sites,
+                 "def _deg(net, e, weight):\n    return net._edge_attr[e].get(weight) or 1\n",
+                 lambda nd: f"`{unparse(nd, 60)}` replaces a stored attribute value by a default whenever it is falsy; an edge whose weight is 0 then counts with the default weight, so the weighted statistic no longer equals the sum over the current structure",
+                 "`<lookup> or <number>` on stored attribute values")
     return res
 
 
